@@ -33,6 +33,7 @@ type goX struct {
 	out      *Output
 	recHit   map[string]bool
 	recProbe bool
+	relMemo  map[string]int
 }
 
 const maxInline = 12
@@ -200,6 +201,12 @@ type fnCtx struct {
 
 	pendingLabel string
 	fallT        int
+
+	slots    map[*ast.Object]int // variables whose nil-ness is tracked (results of inlined helpers that are tested against nil)
+	rv       []int               // inlined instance: slot of the caller's variable receiving result i (0 = none)
+	condMode bool                // inlined as a condition: return <bool> branches to condT / condF
+	condT    int
+	condF    int
 }
 
 func (c *fnCtx) node(k, a, op string, cv, t, f int, at ast.Node) int {
@@ -386,6 +393,69 @@ func (c *fnCtx) prepass(body *ast.BlockStmt, ft *ast.FuncType, recv *ast.FieldLi
 		return true
 	}
 	ast.Inspect(body, visit)
+	c.trackNil(body, ft)
+}
+
+// trackNil selects the variables whose nil-ness the model follows: they receive a result of an inlined helper
+// (or are named results) and are compared with nil somewhere in this function.
+func (c *fnCtx) trackNil(body *ast.BlockStmt, ft *ast.FuncType) {
+	c.slots = map[*ast.Object]int{}
+	tested := map[*ast.Object]bool{}
+	cand := map[*ast.Object]bool{}
+	ast.Inspect(body, func(n ast.Node) bool {
+		switch t := n.(type) {
+		case *ast.FuncLit:
+			return false
+		case *ast.BinaryExpr:
+			if t.Op == token.EQL || t.Op == token.NEQ {
+				l, r := unparen(t.X), unparen(t.Y)
+				if id, ok := r.(*ast.Ident); ok && id.Name == "nil" {
+					if v, ok := l.(*ast.Ident); ok && v.Obj != nil {
+						tested[v.Obj] = true
+					}
+				}
+			}
+		case *ast.AssignStmt:
+			if len(t.Rhs) == 1 {
+				if call, ok := unparen(t.Rhs[0]).(*ast.CallExpr); ok && c.inlineTarget(call) != nil && c.calleeRelevant(c.inlineTarget(call)) {
+					for _, l := range t.Lhs {
+						if id, ok := l.(*ast.Ident); ok && id.Obj != nil && id.Name != "_" {
+							cand[id.Obj] = true
+						}
+					}
+				}
+			}
+		}
+		return true
+	})
+	if ft.Results != nil {
+		i := 0
+		for _, f := range ft.Results.List {
+			for _, nm := range f.Names {
+				if nm.Obj != nil && i < len(c.rv) && c.rv[i] > 0 {
+					cand[nm.Obj] = true
+					tested[nm.Obj] = true
+				}
+				i++
+			}
+		}
+	}
+	for o := range cand {
+		if tested[o] {
+			c.slots[o] = c.p.slotOf(o)
+		}
+	}
+}
+
+func (p *Proc) slotOf(o *ast.Object) int {
+	if p.slotIDs == nil {
+		p.slotIDs = map[interface{}]int{}
+	}
+	if v, ok := p.slotIDs[o]; ok {
+		return v
+	}
+	p.slotIDs[o] = len(p.slotIDs) + 1
+	return p.slotIDs[o]
 }
 
 func (p *Proc) nextDefer() { p.deferSeq++ }
@@ -410,6 +480,7 @@ func (c *fnCtx) buildFunc(body *ast.BlockStmt, ft *ast.FuncType, recv *ast.Field
 			cc := c.child()
 			cc.defers = map[*ast.DeferStmt]int{}
 			cc.brk, cc.cont = nil, nil
+			cc.rv, cc.condMode = nil, false
 			bodyEntry = cc.buildFunc(fl.Body, fl.Type, nil, cur)
 		} else {
 			bodyEntry = c.calls(d.s.Call, cur)
@@ -446,7 +517,25 @@ func (c *fnCtx) stmt(s ast.Stmt, next int) int {
 	case *ast.EmptyStmt:
 		return next
 	case *ast.DeclStmt:
-		return c.calls(s, next)
+		n := next
+		if gd, ok := s.Decl.(*ast.GenDecl); ok {
+			for _, sp := range gd.Specs {
+				if vs, ok := sp.(*ast.ValueSpec); ok {
+					for i, nm := range vs.Names {
+						if slot := c.slots[nm.Obj]; slot > 0 && nm.Obj != nil {
+							if len(vs.Values) == len(vs.Names) {
+								n = c.nilNode(slot, vs.Values[i], s, n)
+							} else if len(vs.Values) == 0 {
+								n = c.node("nl", "", "=", slot, n, 0, s)
+							} else {
+								n = c.node("nl", "", "=?", slot, n, 0, s)
+							}
+						}
+					}
+				}
+			}
+		}
+		return c.calls(s, n)
 	case *ast.IncDecStmt:
 		d := 1
 		if s.Tok == token.DEC {
@@ -478,8 +567,37 @@ func (c *fnCtx) stmt(s ast.Stmt, next int) int {
 			}
 			n = c.write(s.Lhs[i], op, cv, known, rhs, s, n)
 		}
-		for i := len(s.Rhs) - 1; i >= 0; i-- {
-			n = c.calls(s.Rhs[i], n)
+		// nil-ness of tracked variables
+		var inl *ast.CallExpr
+		if len(s.Rhs) == 1 {
+			if call, ok := unparen(s.Rhs[0]).(*ast.CallExpr); ok && c.inlineTarget(call) != nil {
+				inl = call
+			}
+		}
+		if inl != nil {
+			rv := make([]int, len(s.Lhs))
+			for i, l := range s.Lhs {
+				if id, ok := l.(*ast.Ident); ok && id.Obj != nil {
+					rv[i] = c.slots[id.Obj]
+				}
+			}
+			n = c.inlineRV(c.inlineTarget(inl), inl, n, rv)
+			for i := len(inl.Args) - 1; i >= 0; i-- {
+				n = c.calls(inl.Args[i], n)
+			}
+		} else {
+			for i := len(s.Lhs) - 1; i >= 0; i-- {
+				if id, ok := s.Lhs[i].(*ast.Ident); ok && id.Obj != nil && c.slots[id.Obj] > 0 {
+					if len(s.Rhs) == len(s.Lhs) {
+						n = c.nilNode(c.slots[id.Obj], s.Rhs[i], s, n)
+					} else {
+						n = c.node("nl", "", "=?", c.slots[id.Obj], n, 0, s)
+					}
+				}
+			}
+			for i := len(s.Rhs) - 1; i >= 0; i-- {
+				n = c.calls(s.Rhs[i], n)
+			}
 		}
 		for i := len(s.Lhs) - 1; i >= 0; i-- {
 			if _, isId := s.Lhs[i].(*ast.Ident); !isId {
@@ -488,7 +606,34 @@ func (c *fnCtx) stmt(s ast.Stmt, next int) int {
 		}
 		return n
 	case *ast.ReturnStmt:
+		if c.condMode {
+			if len(s.Results) == 1 {
+				return c.cond(s.Results[0], c.condT, c.condF)
+			}
+			return c.node("nd", "", "", 0, c.condT, c.condF, s)
+		}
 		n := c.exit
+		if c.rv != nil { // tell the caller's tracked variables whether they receive nil
+			var named []*ast.Ident
+			if c.fi.decl.Type.Results != nil {
+				for _, f := range c.fi.decl.Type.Results.List {
+					named = append(named, f.Names...)
+				}
+			}
+			for i := len(c.rv) - 1; i >= 0; i-- {
+				if c.rv[i] == 0 {
+					continue
+				}
+				switch {
+				case len(s.Results) == len(c.rv):
+					n = c.nilNode(c.rv[i], s.Results[i], s, n)
+				case len(s.Results) == 0 && i < len(named) && c.slots[named[i].Obj] > 0:
+					n = c.nodeS("nl", "", "cp", c.rv[i], c.slots[named[i].Obj], n, 0, s)
+				default:
+					n = c.node("nl", "", "=?", c.rv[i], n, 0, s)
+				}
+			}
+		}
 		for i := len(s.Results) - 1; i >= 0; i-- {
 			n = c.calls(s.Results[i], n)
 		}
